@@ -379,7 +379,7 @@ def _aggregates(func, is_source, assigns):
                 if isinstance(m, ast.Compare) and isinstance(
                         m.ops[0], (ast.In, ast.NotIn)) and \
                         dotted(m.comparators[0]) == cont:
-                    found.append((n, 'seen-set'))
+                    found.append((m, 'seen-set'))
                     break
     return found, coll
 
